@@ -14,7 +14,9 @@
 //	       streams (<= 6 KB) and of streams up to 300 KB with lines at the scanner limit
 //	tcp    the real input.Listener (TimeoutConn, acceptTcpConn, handleConn) over loopback
 //	       TCP, TCP_NODELAY, paced writes; and a listener with a short read timeout for
-//	       streams that stall
+//	       writers that stall after k bytes (k is taken from a counting reader between
+//	       the TimeoutConn and the handler: only the reader side knows what had arrived
+//	       when the deadline struck)
 //	udp    datagrams with 0-200 lines through the same listener (consumeUdp, handleData)
 //	amqp   deliveries through the real Amqp.start/consumeAMQP with a mock connector
 //	       (accessor overlay input/zz_verif_amqp.go)
